@@ -262,6 +262,7 @@ func (w *Watch) Quiesce() bool {
 	w.defaults()
 	start := time.Now()
 	delay := 20 * time.Microsecond
+	streak := 0
 	for {
 		before := w.Prog.Load()
 		for i := 0; i < 4; i++ {
@@ -269,9 +270,16 @@ func (w *Watch) Quiesce() bool {
 		}
 		gs, dump := Snapshot()
 		if ok, _ := AllParked(gs); ok && w.Prog.Load() == before {
-			w.LastDump = dump
-			return true
+			// two consecutive identical verdicts, a scheduler pass apart
+			streak++
+			if streak >= 2 {
+				w.LastDump = dump
+				return true
+			}
+			time.Sleep(30 * time.Microsecond)
+			continue
 		}
+		streak = 0
 		if time.Since(start) > w.StallBudget {
 			return false
 		}
